@@ -77,6 +77,9 @@ func canonEntry(s string) map[string]any {
 	mod := ""
 	if ukey == "GOFLAGS" {
 		for _, tok := range strings.Fields(val) {
+			if strings.HasPrefix(tok, "--") { // the go command accepts -mod= and --mod=
+				tok = tok[1:]
+			}
 			if strings.HasPrefix(tok, "-mod=") {
 				mod = strings.TrimPrefix(tok, "-mod=")
 			}
